@@ -181,3 +181,56 @@ def arg_of(call, fn_params, name, pos=None):
     elif pos is not None and pos < len(call.args):
         return call.args[pos]
     return None
+
+
+def entry_roots(M, fq, expr, at=None, depth=0, seen=None):
+    """where can the value of `expr` (in function fq) come from, followed up the call graph:
+    -> set of (function qual, parameter name) for parameters of functions without repo callers (entry points),
+       plus ("<const>", repr) for literals and ("<expr>", text) for anything else that is not a parameter"""
+    seen = seen if seen is not None else set()
+    key = (fq, ast.dump(expr))
+    if key in seen or depth > 6:
+        return set()
+    seen.add(key)
+    fn = M.defs[fq]
+    fl = Flow(fn)
+    if at is None:
+        at = fl.node_of(expr)
+    sl = fl.slice(expr, at, follow_mutations=False)
+    out = set()
+    if isinstance(expr, ast.Constant):
+        out.add(("<const>", repr(expr.value)))
+    params = set(sl["params"])
+    # closure variables of a nested function
+    parent = M.parent.get(fq)
+    for nm in sl["names"]:
+        if parent in M.defs and isinstance(M.defs[parent], (ast.FunctionDef, ast.AsyncFunctionDef)):
+            pps = [a.arg for a in M.defs[parent].args.posonlyargs + M.defs[parent].args.args + M.defs[parent].args.kwonlyargs]
+            if nm in pps:
+                out |= _param_roots(M, parent, nm, depth, seen)
+    for p in params:
+        if p == "self":
+            continue
+        out |= _param_roots(M, fq, p, depth, seen)
+    for e in sl["exprs"]:
+        for x in ast.walk(e):
+            if isinstance(x, ast.Constant) and e is expr and isinstance(expr, ast.Constant):
+                pass
+            if isinstance(x, ast.Attribute):
+                out.add(("<attr>", ast.unparse(x)))
+    return out
+
+
+def _param_roots(M, fq, p, depth, seen):
+    M.callgraph()
+    sites = [(cfq, call) for cfq, lst in M.call_sites.items() for call, cs in lst if fq in cs]
+    if not sites:
+        return {(fq, p)}
+    out = set()
+    for cfq, call in sites:
+        b = M.bind_args(fq, call)
+        if p in b:
+            out |= entry_roots(M, cfq, b[p], None, depth + 1, seen)
+        else:
+            out.add(("<default>", f"{fq}:{p}"))
+    return out
